@@ -21,6 +21,7 @@ RULE = (
     "Safety is an ordering monitor over every execution; liveness is 'every waiter whose producers ran runs exactly once' in DAGs and the exact "
     "sequential iteration count in loops. Non-trivial = a waiter actually waited (its producer completed in an earlier step than the waiter "
     "started) or a loop ran >=2 iterations; distinct = digest of (program shape, inputs, completion order)."
+    ' Also: waiters with another, later-changing input (defaulted upstream parameter; one-shot signal inside a loop), waiters with two awaited names produced at different rates.'
 )
 ASSUMPTIONS = [
     "awaited names are never supplied by the caller (a supplied value legitimately satisfies the wait)",
